@@ -591,11 +591,21 @@ def diversify(rng: random.Random, main: G.Schema) -> None:
             rng.choice(tops).name = "QRSTUVW"[main.all_files().index(f) % 7]
 
 
+def refresh_max_bytes(rng: random.Random, main: G.Schema) -> None:
+    """enrich() changes array capacities: keep the generator's max_bytes options satisfiable"""
+    for f in main.all_files():
+        for m in f.messages():
+            opts = getattr(m, "options", None)
+            if opts:
+                m.options = [(on, ((G.msg_nbits(m) + 7) // 8 + rng.randint(0, 3)) if on == "max_bytes" else ov) for (on, ov) in opts]
+
+
 def make_program(rng: random.Random, allow_ext: bool) -> G.Schema:
     go = G.GenOpts(max_bits=1200, big_prob=0.0, allow_ext=allow_ext, max_fields=5)
     main = G.ProgramGen(rng, G.ProgOpts(n_imports=(0, 3), gen=go)).program()
     link_consts(main)
     enrich(rng, main)
+    refresh_max_bytes(rng, main)
     diversify(rng, main)
     ensure_zero(rng, main)
     return main
@@ -649,10 +659,13 @@ def perturb(rng: random.Random, main: G.Schema, n: int) -> List[str]:
     """rename n definitions of the MAIN file to clearly violating names / drop zero members;
     references follow because the printer prints names from the objects"""
     targets: List[Tuple[str, Any, Any]] = []
+    nested_fields: set = set()
     for d in all_defs(main):
         if isinstance(d, G.MsgDef):
             targets.append(("message", d, None))
             targets += [("field", fl, None) for fl in d.fields]
+            if d.parent is not None:
+                nested_fields |= {id(fl) for fl in d.fields}
         elif isinstance(d, G.EnumDef):
             targets.append(("enum", d, None))
             targets += [("member", d, n) for (n, _) in d.members]
@@ -671,7 +684,8 @@ def perturb(rng: random.Random, main: G.Schema, n: int) -> List[str]:
         if not bykind:
             break
         kind = rng.choice(sorted(bykind))
-        t = rng.choice(bykind[kind])
+        nested = [t for t in bykind[kind] if getattr(t[1], "parent", None) is not None or id(t[1]) in nested_fields]
+        t = rng.choice(nested if (nested and rng.random() < 0.5) else bykind[kind])
         key = (kind, id(t[1]), t[2])
         if key in used:
             continue
@@ -866,7 +880,8 @@ def check_positions(run: common.Run, cb: ColBase, base_dir: str, printed: Dict[s
             proto = R.parse_file(path)
     except Exception as e:
         run.count(f"positions.skipped_not_accepted.{tag}")
-        run.notes.setdefault("positions_not_accepted", []).append({"error": f"{type(e).__name__}: {e}"[:300], "layout": tag})
+        if len(run.notes.setdefault("positions_not_accepted", [])) < 10:
+            run.notes["positions_not_accepted"].append({"error": f"{type(e).__name__}: {e}"[:300], "layout": tag})
         return
     run.count(f"positions.programs.{tag}")
     real = collect_real(proto)
@@ -921,7 +936,7 @@ def check_positions(run: common.Run, cb: ColBase, base_dir: str, printed: Dict[s
     if problems:
         run.violation({"kind": "impl-vs-spec", "input": {"files": files, "api": f"bitproto.parser.parse({main_rel!r})"},
                        "expected_by_spec": "every definition and reference records the line and column (offset + %d) of its name" % cb.base,
-                       "observed_impl": problems[:8], "layout": tag})
+                       "observed_impl": problems[:8], "layout": tag, "part": "e"})
 
 
 # ===================================================================== (d) violations to insert
@@ -1102,7 +1117,7 @@ class Job:
 
 
 def check(run: common.Run, drv: Any, rng: random.Random, tier: str) -> None:
-    n_prog, n_inj, chunk = (32, 8, 8) if tier == "quick" else (320, 10, 16)
+    n_prog, n_inj, chunk = (28, 8, 7) if tier == "quick" else (300, 10, 15)
     with R.Scratch("bpv-c20-") as sc, CF.ThreadPoolExecutor(16) as ex:
         cb = replay_kf(run, sc)
         run.notes["column_base_measured"] = cb.base
@@ -1161,8 +1176,9 @@ def one_program(run: common.Run, rng: random.Random, ex: Any, jobs: List[Job], c
     vdir, printed, files = variant("conform", base_prog, layout_conform(rng))
     check_positions(run, cb, vdir, printed, main_rel, files, "conform")
     marg = main_arg(rng, vdir, main_rel)
+    state: Dict[str, Any] = {"accepted": None}
     submit(ex, jobs, vdir, ["-c", marg], ev_lint, run=run, files=files, main_rel=main_rel, printed=printed, mode="conform",
-           expect=Counter(), grey=False, what=[])
+           expect=Counter(), grey=False, what=[], state=state)
     conform = (vdir, printed, files)
 
     # ---------------- name-perturbed variants: (c) (f)
@@ -1209,11 +1225,11 @@ def one_program(run: common.Run, rng: random.Random, ex: Any, jobs: List[Job], c
             submit(ex, jobs, vdir, argv, ev_advisory, pair=pair, q=q, out=out)
 
     # ---------------- (d) single-violation invalid programs
-    inject_errors(run, rng, ex, jobs, base_prog, paths, main_rel, pdir, trad_ok, n_inj)
+    inject_errors(run, rng, ex, jobs, base_prog, paths, main_rel, pdir, trad_ok, n_inj, state)
 
 
 def inject_errors(run: common.Run, rng: random.Random, ex: Any, jobs: List[Job], base_prog: G.Schema, paths: Dict[int, str],
-                  main_rel: str, pdir: str, trad_ok: bool, n_inj: int) -> None:
+                  main_rel: str, pdir: str, trad_ok: bool, n_inj: int, state: Dict[str, Any]) -> None:
     lay_main = rng.choice([layout_conform, layout_lines])(rng)
     printed = print_program(rng, base_prog, lambda f: lay_main if f is base_prog else rng.choice([layout_conform, layout_lines])(rng), paths)
     rels = sorted(printed)
@@ -1251,7 +1267,7 @@ def inject_errors(run: common.Run, rng: random.Random, ex: Any, jobs: List[Job],
                     rng.choice([["-c", "-q", main_rel], ["py", main_rel, "out_py"], ["c", main_rel, "out_c", "-q"], ["go", main_rel, "out_go"],
                                 ["py", main_rel, "out_py", "-q"]])]
         shared: Dict[str, Any] = {"run": run, "files": files, "kind": kind, "scope": slot.scope, "depth": depth, "exp_file": exp_file,
-                                  "exp_line": exp_line, "rel": rel, "stmt": line, "layout": lay_main.name}
+                                  "exp_line": exp_line, "rel": rel, "stmt": line, "layout": lay_main.name, "state": state}
         if rng.random() < 0.45:
             cmds = cmds[:1] if rng.random() < 0.5 else cmds[1:]
         for argv in cmds:
@@ -1277,10 +1293,13 @@ def ev_lint(j: Job, res: Dict[str, Any]) -> None:
     main_path = os.path.realpath(os.path.join(j.cwd, d["main_rel"]))
     pm: Printed = d["printed"][d["main_rel"]]
     obs = {"rc": res["rc"], "stderr": ANSI.sub("", res["err"])[:1500]}
+    if "state" in d:
+        d["state"]["accepted"] = not (errors or any(l.startswith("Traceback") for l in other))
     if errors or any(l.startswith("Traceback") for l in other):
         # the generated program is not accepted: outside the preconditions of (b)/(c)
         run.count(f"lint.skipped_not_accepted.{mode}")
-        run.notes.setdefault("lint_not_accepted", []).append({"stderr": obs["stderr"][:300], "mode": mode})
+        if len(run.notes.setdefault("lint_not_accepted", [])) < 10:
+            run.notes["lint_not_accepted"].append({"stderr": obs["stderr"][:300], "mode": mode})
         return
     run.count(f"lint.runs.{mode}")
     run.count("lint.warnings_seen", len(warnings))
@@ -1364,6 +1383,9 @@ def ev_advisory(j: Job, res: Dict[str, Any]) -> None:
 def ev_error(j: Job, res: Dict[str, Any]) -> None:
     d = j.data
     run: common.Run = d["run"]
+    if not d["state"]["accepted"]:
+        run.count("errors.skipped_base_program_not_accepted")  # not a SINGLE-violation program
+        return
     run.evaluated()
     errors, warnings, other = diagnostics(j.cwd, res["err"])
     mode = "check" if "-c" in j.argv else ("trad" if "-O" in j.argv else "lang")
